@@ -24,11 +24,14 @@ REQUIRED_THEOREMS = ['CfVerif.C03.' + t for t in (
     'stale_info_ignored', 'stale_item_ignored', 'fetch_completes', 'toc_eq_device_table', 'lookup_agree', 'complete_name_arity',
     'persistent_marks_eq_device', 'ext_phase_completes', 'param_table_when_connected', 'no_extended_no_queries',
     'setup_started_once', 'setup_started_once_live_counterexample', 'log_fetcher_started_once', 'version_is_devices',
+    'disconnect_unregisters', 'aborted_download_is_silent', 'stale_fetchers_do_not_interfere', 'undisconnected_fetcher_interferes',
+    'ext_disconnect_aborts', 'gen_disconnect',
     'gen_platform_reports_once', 'gen_type_tables', 'gen_log_reset_guard', 'gen_v2_threshold')]
 TRUSTED = ['harness/corr/c03.py extractor + correspondence', 'harness/sim/crazyflie_device.py (simulated device, link, sync session) and its Lean twin Spec/C03',
            "Python str.decode('ISO-8859-1') is a bijection bytes <-> code points < 256 (names are compared as byte strings)",
            'dict keeps insertion order and overwrites in place; struct.unpack as modelled in Base/Struct']
 ASSUMPTIONS = ['TOC cache disabled (cache behaviour is C11)',
+               'a worker iteration of _ExtendedTypeFetcher.run that is in flight while the link is lost is not modelled (C02)',
                'one download per port and connection: replies of a previous session do not reach the fetcher (the link queue is per connection)',
                'replies are genuine device replies (possibly duplicated, stale, delayed); forged packets are only used in the correspondence',
                'unsolicited MISC_VALUE_UPDATED during the extended-type phase is not a reply (observation in docs/C03.md)',
@@ -149,6 +152,18 @@ def extract(ctx):
     g.string('useV2Expr', ast.unparse(uv))
     sdatas = sorted((n.lineno, ast.unparse(n.value)) for n in ast.walk(st) if isinstance(n, ast.Assign) and ast.unparse(n.targets[0]) == 'pk.data')
     g.strings('startTuples', [s for _, s in sdatas])
+    # abort on disconnect (fix D21): what start() registers, what _disconnected and _toc_fetch_finished remove
+    def _stmts(fn):
+        return [ast.unparse(n) for n in fn.body if not (isinstance(n, ast.Expr) and isinstance(n.value, ast.Constant))]
+
+    def _calls(fn, words):
+        return [ast.unparse(n.value) for n in ast.walk(fn) if isinstance(n, ast.Expr) and isinstance(n.value, ast.Call)
+                and any(w in ast.unparse(n.value.func) for w in words)]
+    g.strings('tocStartRegs', sorted(_calls(st, ('add_port_callback', 'add_callback'))))
+    X.expect(any(isinstance(n, ast.FunctionDef) and n.name == '_disconnected' for n in X.find(toc, 'TocFetcher').body),
+             'TocFetcher._disconnected missing (fix D21 not in this tree)')
+    g.strings('tocDisconnectedBody', sorted(_stmts(X.find(toc, 'TocFetcher._disconnected'))))
+    g.strings('tocFinishedRemovals', sorted(_calls(X.find(toc, 'TocFetcher._toc_fetch_finished'), ('remove_port_callback', 'remove_callback'))))
     # Toc lookups
     t = X.find(toc, 'Toc')
     gi = X.find(t, 'get_element_id')
@@ -250,6 +265,11 @@ def extract(ctx):
     X.expect(len(sc) == 1 and sc[0]['fmt'], '_ExtendedTypeFetcher.run: expected one struct.unpack')
     g.string('extRunFmt', sc[0]['fmt'])
     g.strings('extRunArgs', sc[0]['args'])
+    g.strings('extInitRegs', sorted(_calls(X.find(ef, '__init__'), ('add_port_callback', 'add_callback'))))
+    X.expect(any(isinstance(n, ast.FunctionDef) and n.name == '_disconnected' for n in ef.body),
+             '_ExtendedTypeFetcher._disconnected missing (fix D21 not in this tree)')
+    g.strings('extDisconnectedBody', _stmts(X.find(ef, '_disconnected')))
+    g.strings('extCloseRemovals', sorted(_calls(X.find(ef, '_close'), ('remove_port_callback', 'remove_callback'))))
     rt = X.find(par, 'Param.refresh_toc')
     g.strings('refreshCompares', X.compares(rt))
     g.strings('refreshIfTests', [ast.unparse(n.test) for n in ast.walk(rt) if isinstance(n, ast.If)])
@@ -353,14 +373,17 @@ def real_decode(kind, ident, data):
 
 
 class StubCF:
-    """the Crazyflie object as seen by TocFetcher / _ExtendedTypeFetcher: platform version, port callbacks, send_packet"""
+    """the Crazyflie object as seen by TocFetcher / _ExtendedTypeFetcher: platform version, port callbacks, the real
+    `disconnected` Caller, send_packet"""
 
     def __init__(self, version):
+        from cflib.utils.callbacks import Caller
         self.platform = self
         self.version = version
         self.cbs = []
         self.sent = []
         self.link = True
+        self.disconnected = Caller()
         self._sim_sync_session = self       # harness/sim: worker threads register here instead of starting
         self.workers = []
 
@@ -371,7 +394,9 @@ class StubCF:
         self.cbs.append((port, cb))
 
     def remove_port_callback(self, port, cb):
-        self.cbs.remove((port, cb))
+        # like _IncomingPacketHandler.remove_header_callback: removing a callback that is not registered is a no-op
+        if (port, cb) in self.cbs:
+            self.cbs.remove((port, cb))
 
     def send_packet(self, pk, expected_reply=(), resend=False, timeout=0.2):
         self.sent.append(((pk.header >> 4) & 0xF, pk.header & 3, bytes(pk.data), tuple(expected_reply)))
@@ -381,7 +406,8 @@ class StubCF:
 
 
 class RealFetch:
-    """one real download driven from outside: kind 'log' | 'param', v2 flag"""
+    """real downloads driven from outside on ONE set of objects (stub Crazyflie, Log / Param): kind 'log' | 'param'.
+    `restart()` begins a new download on the same objects (as a reconnect does)."""
 
     def __init__(self, kind, v2):
         _quiet()
@@ -389,31 +415,40 @@ class RealFetch:
         sim.install()
         from cflib.crazyflie.log import Log
         from cflib.crazyflie.param import Param
-        from cflib.crazyflie.toc import Toc
-        from cflib.crazyflie.toccache import TocCache
         self.kind, self.v2 = kind, v2
         self.cf = StubCF(4 if v2 else 3)
         self.done = 0
         self.port = 5 if kind == 'log' else 2
-        cache = TocCache()
         if kind == 'log':
             self.owner = Log.__new__(Log)
             self.owner.cf = self.cf
             self.owner.log_blocks = []
             self.owner.toc = None
-            self.owner.refresh_toc(self._finished, cache)
-            self.owner._new_packet_cb(self._pk(1, b'\x05\x00\x00'))       # the reset reply starts the fetcher
         else:
             self.owner = Param.__new__(Param)
             self.owner.cf = self.cf
-            self.owner.toc = Toc()
-            self.owner.refresh_toc(self._finished, cache)
-        regs = [cb for (p, cb) in self.cf.cbs if p == self.port]
+        self.restart()
+
+    def restart(self):
+        from cflib.crazyflie.toc import Toc, TocFetcher
+        from cflib.crazyflie.toccache import TocCache
+        before = [cb for (p, cb) in self.cf.cbs]
+        self.done_base = self.done
+        self.workers_base = len(self.cf.workers)
+        n0 = len(self.cf.sent)
+        if self.kind == 'log':
+            self.owner.refresh_toc(self._finished, TocCache())
+            self.owner._new_packet_cb(self._pk(1, b'\x05\x00\x00'))       # the reset reply starts the fetcher
+        else:
+            self.owner.toc = Toc()                 # Param._connection_requested / _disconnected
+            self.owner.refresh_toc(self._finished, TocCache())
+        regs = [cb for (p, cb) in self.cf.cbs if p == self.port and cb not in before and isinstance(cb.__self__, TocFetcher)]
         assert len(regs) == 1
         self.fetcher = regs[0].__self__
         self.cb = regs[0]
-        self.start_req = [d for (p, c, d, _) in self.cf.sent if p == self.port and c == 0]
+        self.start_req = [d for (p, c, d, _) in self.cf.sent[n0:] if p == self.port and c == 0]
         self.nsent = len(self.cf.sent)
+        return 'ok ' + ','.join(hexs(d) for d in self.start_req)
 
     def _finished(self):
         self.done += 1
@@ -429,41 +464,76 @@ class RealFetch:
     def registered(self):
         return (self.port, self.cb) in self.cf.cbs
 
+    def _dispatch(self, cls, chan, data):
+        """offer the packet to every registered callback of objects of class `cls` on the port, like the dispatcher
+        (an exception in one callback does not stop the others); returns the exception of the CURRENT object, if any"""
+        err = None
+        for (p, cb) in list(self.cf.cbs):
+            if p == self.port and isinstance(getattr(cb, '__self__', None), cls):
+                try:
+                    cb(self._pk(chan, data))
+                except Exception as e:
+                    if cb.__self__ is self.fetcher or (self.cf.workers and cb.__self__ is self.cf.workers[-1]):
+                        err = e
+        return err
+
+    def _state(self):
+        f = self.fetcher
+        if self.registered():
+            return 'info' if f.state == 'GET_TOC_INFO' else 'element'
+        return 'done' if self._tocdone else 'aborted'
+
     def fpkt(self, chan, data):
+        from cflib.crazyflie.toc import TocFetcher
         f = self.fetcher
         fin0 = self._tocdone
-        if self.registered():
-            try:
-                self.cb(self._pk(chan, data))
-            except Exception as e:
-                self.nsent = len(self.cf.sent)
-                return 'err ' + exc_enum(e)
+        err = self._dispatch(TocFetcher, chan, data)
         new = self.cf.sent[self.nsent:]
         self.nsent = len(self.cf.sent)
+        if err is not None:
+            return 'err ' + exc_enum(err)
         sends = [d for (p, c, d, _) in new if p == self.port and c == 0]
-        st = 'done' if not self.registered() else ('info' if f.state == 'GET_TOC_INFO' else 'element')
         return 'ok sends=%s finished=%d st=%s req=%d nbr=%d crc=%d' % (
-            ','.join(hexs(d) for d in sends) if sends else '-', self._tocdone - fin0, st, f.requested_index or 0,
+            ','.join(hexs(d) for d in sends) if sends else '-', self._tocdone - fin0, self._state(), f.requested_index or 0,
             f.nbr_of_items or 0, f._crc)
+
+    def fdisc(self):
+        self.cf.disconnected.call('sim://stub')
+        f = self.fetcher
+        reg = self.registered() or f._disconnected in self.cf.disconnected.callbacks
+        self.nsent = len(self.cf.sent)
+        return 'ok st=%s registered=%d' % (self._state(), 1 if reg else 0)
 
     @property
     def _tocdone(self):
-        """how often the TocFetcher's finished callback ran (for param: refresh_done, observable through its effects)"""
+        """did the current TocFetcher's finished callback run (for param: refresh_done, observable through its effects)"""
         if self.kind == 'log':
-            return self.done
-        return 0 if self.registered() else 1
+            return self.done - self.done_base
+        return 1 if (self.done > self.done_base or len(self.cf.workers) > self.workers_base) else 0
 
     # ---- extended types (param only) ----
+    def _w(self):
+        return self.cf.workers[-1] if len(self.cf.workers) > self.workers_base else None
+
+    def _xactive(self, w):
+        return (self.port, w._new_packet_cb) in self.cf.cbs or w._disconnected in self.cf.disconnected.callbacks
+
+    def _xshow(self, w):
+        ids = [struct_id(pk.data) for pk in list(w.request_queue.queue)]
+        return 'ok count=%d done=%d locked=%d req=%d queue=%s active=%d' % (
+            w._count, self.done - self.done_base, 1 if w._lock.locked() else 0, w._req_param,
+            ','.join(map(str, ids)) if ids else '-', 1 if self._xactive(w) else 0)
+
     def xstart(self):
-        if not self.cf.workers:
-            return 'ok none' if self.done == 1 else 'err no-callback'
-        w = self.cf.workers[0]
+        w = self._w()
+        if w is None:
+            return 'ok none' if self.done - self.done_base == 1 else 'err no-callback'
         ids = [struct_id(pk.data) for pk in list(w.request_queue.queue)]
         return 'ok queue=%s count=%d' % (','.join(map(str, ids)) if ids else '-', w._count)
 
     def xworker(self):
         from harness.sim import crazyflie_device as sim
-        w = self.cf.workers[0]
+        w = self._w()
         if not sim.worker_ready(w):
             return 'ok idle'
         n = len(self.cf.sent)
@@ -473,14 +543,16 @@ class RealFetch:
         return 'ok ' + ','.join(hexs(d) for (_, _, d, _) in new)
 
     def xpkt(self, chan, data):
-        w = self.cf.workers[0]
-        try:
-            w._new_packet_cb(self._pk(chan, data))
-        except Exception as e:
-            return 'err ' + exc_enum(e)
-        ids = [struct_id(pk.data) for pk in list(w.request_queue.queue)]
-        return 'ok count=%d done=%d locked=%d req=%d queue=%s' % (w._count, self.done, 1 if w._lock.locked() else 0, w._req_param,
-                                                                ','.join(map(str, ids)) if ids else '-')
+        from cflib.crazyflie.param import _ExtendedTypeFetcher
+        w = self._w()
+        err = self._dispatch(_ExtendedTypeFetcher, chan, data)
+        if err is not None:
+            return 'err ' + exc_enum(err)
+        return self._xshow(w)
+
+    def xdisc(self):
+        self.cf.disconnected.call('sim://stub')
+        return self._xshow(self._w())
 
 
 def struct_id(data):
@@ -604,7 +676,7 @@ class Script:
         self.desc.append(desc or line[:120])
 
 
-def fetch_session(ctx, sc, kind, v2, n, malformed, rich):
+def fetch_session(ctx, sc, kind, v2, n, malformed, rich, disconnect=False):
     """adversarial delivery schedule against one table; returns summary for counting"""
     rng = ctx.rng
     from harness.sim import crazyflie_device as sim
@@ -612,60 +684,85 @@ def fetch_session(ctx, sc, kind, v2, n, malformed, rich):
     dev = sim.CrazyflieDevice(protocol_version=4 if v2 else 3, **({'log_toc': items} if kind == 'log' else {'param_toc': items}))
     port = 5 if kind == 'log' else 2
     holder = {}
-
-    def start():
-        holder['r'] = RealFetch(kind, v2)
-        return 'ok ' + ','.join(hexs(d) for d in holder['r'].start_req)
-    sc.add('fstart %s %d' % (kind, 1 if v2 else 0), start, {'op': 'fstart', 'kind': kind, 'v2': v2, 'n': n})
-    pool = [d for (_, _, d) in dev.handle(port, 0, bytes([3 if v2 else 1]))]
-    # The schedule is generated against the device alone (the oracle knows which reply is awaited), so the
-    # same packet sequence can be handed to model and code.
-    awaited = 0          # index in pool of the newest reply
-    nreq = 0             # next item to be requested by a correct fetcher
-    state = 'info'
-    steps = 0
     stats = collections.Counter()
-    limit = 4 * n + 40
-    while state != 'done' and steps < limit:
-        steps += 1
-        x = rng.random()
-        if x < 0.55 or steps > limit - n - 5:
-            pkt, chan, kindp = pool[awaited], 0, 'awaited'
-        elif x < 0.80 and pool:
-            pkt, chan, kindp = pool[rng.randrange(len(pool))], 0, 'stale'
-        elif x < 0.90 or not malformed:
-            pkt, chan, kindp = bytes(rng.randrange(256) for _ in range(rng.randrange(0, 12))), rng.choice([1, 2, 3]), 'other'
+
+    def download(first, abort_at):
+        """one download (start .. finished | aborted by a disconnect at step `abort_at`); returns (state, pool)"""
+        if first:
+            def start():
+                holder['r'] = RealFetch(kind, v2)
+                return 'ok ' + ','.join(hexs(d) for d in holder['r'].start_req)
         else:
-            base = pool[rng.randrange(len(pool))]
-            m = rng.choice(['trunc', 'forged', 'junk', 'empty'])
-            if m == 'trunc':
-                pkt = base[:rng.randrange(0, len(base))]
-            elif m == 'forged':      # right index, other content
-                pkt = (bytes([2, nreq & 0xFF, nreq >> 8]) if v2 else bytes([0, nreq & 0xFF])) + bytes([rng.randrange(16)]) + gen_name(rng, 2) + b'\0' + gen_name(rng, 3) + b'\0'
-            elif m == 'junk':
-                pkt = bytes(rng.randrange(256) for _ in range(rng.randrange(1, 30)))
+            def start():
+                return holder['r'].restart()
+        sc.add('fstart %s %d' % (kind, 1 if v2 else 0), start, {'op': 'fstart', 'kind': kind, 'v2': v2, 'n': n, 'first': first})
+        pool = [d for (_, _, d) in dev.handle(port, 0, bytes([3 if v2 else 1]))]
+        # The schedule is generated against the device alone (the oracle knows which reply is awaited), so the
+        # same packet sequence can be handed to model and code.
+        awaited = 0          # index in pool of the newest reply
+        nreq = 0             # next item to be requested by a correct fetcher
+        state = 'info'
+        steps = 0
+        limit = 4 * n + 40
+        while state != 'done' and steps < limit:
+            if abort_at is not None and steps == abort_at:
+                sc.add('fdisc', lambda: holder['r'].fdisc())
+                stats['disconnect'] += 1
+                return 'aborted', pool
+            steps += 1
+            x = rng.random()
+            if x < 0.55 or steps > limit - n - 5:
+                pkt, chan, kindp = pool[awaited], 0, 'awaited'
+            elif x < 0.80 and pool:
+                pkt, chan, kindp = pool[rng.randrange(len(pool))], 0, 'stale'
+            elif x < 0.90 or not malformed:
+                pkt, chan, kindp = bytes(rng.randrange(256) for _ in range(rng.randrange(0, 12))), rng.choice([1, 2, 3]), 'other'
             else:
-                pkt = b''
-            chan, kindp = 0, 'malformed'
-        stats[kindp] += 1
-        sc.add('fpkt %d %s' % (chan, hexs(pkt)), lambda c=chan, p=pkt: holder['r'].fpkt(c, p))
-        if kindp == 'malformed':
-            # the oracle cannot predict what a malformed packet does; re-synchronise on the real object's state
-            # lazily: the remaining schedule only needs *some* replies, correctness is judged by model == code
-            continue
-        if kindp == 'awaited':
-            if state == 'info':
-                state = 'element' if n > 0 else 'done'
-                if n > 0:
-                    pool += [d for (_, _, d) in dev.handle(port, 0, bytes([2, 0, 0]) if v2 else bytes([0, 0]))]
-                    awaited = len(pool) - 1
-            else:
-                nreq += 1
-                if nreq < n:
-                    pool += [d for (_, _, d) in dev.handle(port, 0, bytes([2, nreq & 0xFF, nreq >> 8]) if v2 else bytes([0, nreq]))]
-                    awaited = len(pool) - 1
+                base = pool[rng.randrange(len(pool))]
+                m = rng.choice(['trunc', 'forged', 'junk', 'empty'])
+                if m == 'trunc':
+                    pkt = base[:rng.randrange(0, len(base))]
+                elif m == 'forged':      # right index, other content
+                    pkt = (bytes([2, nreq & 0xFF, nreq >> 8]) if v2 else bytes([0, nreq & 0xFF])) + bytes([rng.randrange(16)]) + gen_name(rng, 2) + b'\0' + gen_name(rng, 3) + b'\0'
+                elif m == 'junk':
+                    pkt = bytes(rng.randrange(256) for _ in range(rng.randrange(1, 30)))
                 else:
-                    state = 'done'
+                    pkt = b''
+                chan, kindp = 0, 'malformed'
+            stats[kindp] += 1
+            sc.add('fpkt %d %s' % (chan, hexs(pkt)), lambda c=chan, p=pkt: holder['r'].fpkt(c, p))
+            if kindp == 'malformed':
+                # the oracle cannot predict what a malformed packet does; the remaining schedule only needs *some*
+                # replies, correctness is judged by model == code
+                continue
+            if kindp == 'awaited':
+                if state == 'info':
+                    state = 'element' if n > 0 else 'done'
+                    if n > 0:
+                        pool += [d for (_, _, d) in dev.handle(port, 0, bytes([2, 0, 0]) if v2 else bytes([0, 0]))]
+                        awaited = len(pool) - 1
+                else:
+                    nreq += 1
+                    if nreq < n:
+                        pool += [d for (_, _, d) in dev.handle(port, 0, bytes([2, nreq & 0xFF, nreq >> 8]) if v2 else bytes([0, nreq]))]
+                        awaited = len(pool) - 1
+                    else:
+                        state = 'done'
+        return state, pool
+
+    abort_at = rng.randrange(0, min(2 * n + 3, 40)) if disconnect else None
+    state, pool = download(True, abort_at)
+    if state == 'aborted':
+        # replies of the lost session still arrive, a second disconnect happens: the aborted fetcher must stay inert
+        for _ in range(rng.randrange(1, 5)):
+            pkt = pool[rng.randrange(len(pool))]
+            sc.add('fpkt 0 %s' % hexs(pkt), lambda p=pkt: holder['r'].fpkt(0, p))
+        if rng.random() < 0.3:
+            sc.add('fdisc', lambda: holder['r'].fdisc())
+        sc.add('toc', lambda: show_toc(holder['r'].toc))
+        # a new download on the same objects (reconnect) must behave as from the start
+        state, pool = download(False, None)
+        stats['restart'] += 1
     # a few deliveries after the end (callback removed)
     for _ in range(rng.randrange(0, 3)):
         pkt = pool[rng.randrange(len(pool))]
@@ -710,7 +807,22 @@ def ext_session(ctx, sc, holder, dev, items, stats):
     pending = list(ext_ids)
     outstanding = None
     steps = 0
+    xabort = rng.randrange(0, 2 * len(ext_ids) + 2) if rng.random() < 0.25 else None
     while (pending or outstanding is not None) and steps < 6 * len(ext_ids) + 30:
+        if xabort is not None and steps == xabort:
+            # the link is lost in the extended-type phase: afterwards replies, worker iterations and a further
+            # disconnect must leave the object alone
+            sc.add('xdisc', lambda: holder['r'].xdisc())
+            stats['xdisconnect'] += 1
+            for _ in range(rng.randrange(1, 5)):
+                if pool and rng.random() < 0.6:
+                    pkt = pool[rng.randrange(len(pool))]
+                    sc.add('xpkt 3 %s' % hexs(pkt), lambda p=pkt: holder['r'].xpkt(3, p))
+                elif rng.random() < 0.5:
+                    sc.add('xworker', lambda: holder['r'].xworker())
+                else:
+                    sc.add('xdisc', lambda: holder['r'].xdisc())
+            break
         steps += 1
         x = rng.random()
         if outstanding is None and (x < 0.6 or not pool):
@@ -788,7 +900,7 @@ def correspond(ctx):
         plan += [('log', True, 1000, False, False), ('param', True, 700, False, True)]
     for (kind, v2, n, malformed, rich) in plan:
         start = len(sc.lines)
-        stats, state = fetch_session(ctx, sc, kind, v2, n, malformed, rich)
+        stats, state = fetch_session(ctx, sc, kind, v2, n, malformed, rich, disconnect=(n not in SIZES_QUICK or n in (2, 3, 7)) and rng.random() < 0.45)
         sessions.append((start, len(sc.lines), kind, v2, n, malformed, rich, stats, state))
     replies = ctx.lean(DRIVER, sc.lines)
     for (a, b, kind, v2, n, malformed, rich, stats, state) in sessions:
@@ -1066,6 +1178,8 @@ def run_trial(t):
         pol = sim.RandomPolicy(random.Random(t['seed'] + 1), p_dup=0.2, p_delay=0.15, p_drop=0.1, p_stale=0.25, ports=[2, 5])
     else:
         pol = sim.ReplyPolicy([sim.Rule(a, n, port=po, chan=ch) for (a, n, po, ch) in t.get('rules', [])])
+    if mode == 'reconnect':
+        return reconnect_trial(t, dev)
     s = sim.SyncSession(dev, needs_resending=t['needs_resending'], policy=pol)
     ok = s.connect('connected', max_steps=200000 + 40 * (t['nlog'] + t['nparam']))
     bad = property_holds(s, dev) if ok else ('no-connect', 'connected never signalled', {'events': s.events})
@@ -1076,6 +1190,43 @@ def run_trial(t):
         key = 'setup-restarted-by-duplicate-platform-reply' if nver > 1 and not repaired else bad[0]
         bad = (key, bad[1], dict(bad[2], first_log_entries=[(v.group, v.name, v.ctype) for v in dev.log_toc[:5]],
                                  first_param_entries=[(v.group, v.name, v.ctype, v.type_byte) for v in dev.param_toc[:5]]))
+    s.close()
+    return bad
+
+
+def reconnect_trial(t, dev):
+    """the first connection is cut after `cut` exchanged packets (link error from the driver, or close_link()), then the
+    SAME Crazyflie object connects again: the tables must be the device's, `connected` must fire once, and every TOC / extended
+    type request of the second session must go out once (the fetchers of the lost session must not react)."""
+    from harness.sim import crazyflie_device as sim
+    how = t.get('how', 'error')
+    s = sim.SyncSession(dev, needs_resending=False, fail_after=t['cut'] if how == 'error' else None)
+    s.open()
+    if how == 'error':
+        s.run(max_steps=100000)
+    else:
+        s.run(until=lambda: s.link.exchanged >= t['cut'], max_steps=100000)
+        s.close()
+        s.run(max_steps=1000)
+    first = list(s.events)
+    s.cfg.fail_after = None
+    n0 = len(s.events)
+    s.open()
+    ok = s.run(until=lambda: 'connected' in s.events[n0:], max_steps=200000) == 'until'
+    s.run(until=lambda: False, max_steps=50, idle=('workers',))       # whatever is still queued right after `connected`
+    second = s.events[n0:]
+    bad = None
+    if not ok:
+        bad = ('no-connect', 'connected never signalled after reconnecting', {'first': first, 'second': second})
+    else:
+        bad = property_holds(s, dev)
+        sent = [(p, c, d) for (p, c, d) in s.link.sent if (p, c) in ((5, 0), (2, 0)) or ((p, c) == (2, 3) and d[:1] == b'\x02')]
+        if bad is None and second.count('connected') != 1:
+            bad = ('reconnect', '`connected` signalled %d times after reconnecting' % second.count('connected'), {'events': second})
+        if bad is None and len(sent) != len(set(sent)):
+            dup = sorted({x for x in sent if sent.count(x) > 1})[:3]
+            bad = ('reconnect', 'a fetcher of the lost session answers replies of the new one: requests sent twice',
+                   {'duplicated_requests': ['%d:%d:%s' % (p, c, d.hex()) for (p, c, d) in dup]})
     s.close()
     return bad
 
@@ -1114,6 +1265,22 @@ def search(ctx):
         ctx.count('search:corpus')
         if bad:
             ctx.witness(bad[0], bad[1] + ' [corpus %s]' % name, t, detail=bad[2])
+    # (1a) reconnect after a connection lost / closed at every point of the setup of a small device (fix D21)
+    small = {'v2': True, 'nlog': 3, 'nparam': 4, 'needs_resending': False, 'mode': 'reconnect', 'seed': 5}
+    for cut in range(1, 40 if ctx.tier == 'quick' else 60):
+        for how in ('error', 'close'):
+            t = dict(small, cut=cut, how=how, v2=(cut % 3 != 0))
+            ctx.count('search:reconnect')
+            bad = run_trial(t)
+            if bad:
+                ctx.witness('reconnect-' + bad[0], bad[1], t, detail=bad[2])
+    for _ in range(20 if ctx.tier == 'quick' else 300):
+        t = {'v2': rng.random() < 0.6, 'nlog': rng.randrange(0, 30), 'nparam': rng.randrange(0, 30), 'needs_resending': False,
+             'mode': 'reconnect', 'seed': rng.getrandbits(32), 'cut': rng.randrange(1, 90), 'how': rng.choice(['error', 'close'])}
+        ctx.count('search:reconnect')
+        bad = run_trial(t)
+        if bad:
+            ctx.witness('reconnect-' + bad[0], bad[1], t, detail=bad[2])
     # (1b) cache-present sanity path (cache semantics proper are C11): a table cached by an earlier connection is
     # reused only for the same CRC; a foreign table whose file name merely ends with the same hex digits is not
     import os
